@@ -1,7 +1,337 @@
 package main
 
+// C20: the ownership (confinement) discipline that makes the sequential reasoning of all other
+// checks sound and excludes data races on library state (DESIGN.md §3):
+//
+//   - confined fields of a discipline are accessed only by functions reachable from its
+//     goroutine entry, and by the constructor before the go statement;
+//   - shared fields are written only by the constructor before the go statement (they are
+//     immutable while several goroutines can see them; channel operations are not writes);
+//   - no function reachable from an API method touches a confined field.
+//
+// The obligations are decided on the typed AST (frame / ownership conditions, no solver).
+
+import (
+	"fmt"
+	"go/ast"
+	"go/token"
+	"go/types"
+	"os"
+	"path/filepath"
+	"sort"
+	"strings"
+)
+
 func cmdConfine(args []string) int { return 2 }
 
+type fieldAccess struct {
+	fn    *FuncInfo
+	field string
+	write bool
+	pos   token.Pos
+}
+
 func runConfine(o *Options, sp *Specs, ev *Evidence) (int, *Evidence) {
-	return undecided(ev, "confinement analysis not built yet")
+	if len(sp.Confines) == 0 {
+		return undecided(ev, "no confine blocks in the contract files")
+	}
+	prog := newProgram()
+	byDir := map[string]map[string]bool{}
+	for _, c := range sp.Confines {
+		d, pat := moduleDir(o.repo, c.Pkg)
+		if byDir[d] == nil {
+			byDir[d] = map[string]bool{}
+		}
+		byDir[d][pat] = true
+	}
+	for d, pats := range byDir {
+		var ps []string
+		for p := range pats {
+			ps = append(ps, p)
+		}
+		sort.Strings(ps)
+		if err := prog.load(d, ps); err != nil {
+			return undecided(ev, "LOAD-ERROR "+err.Error())
+		}
+	}
+	known := readKnown(filepath.Join(o.verif, "known_findings.txt"), o.prop)
+	nOb, nDis := 0, 0
+	var violations []string
+	var samples []interface{}
+	var types_ []string
+	for _, c := range sp.Confines {
+		pkg := prog.pkgs[c.Pkg]
+		if pkg == nil {
+			return undecided(ev, "CONTRACT-MISMATCH package "+c.Pkg+" of confine block not loaded")
+		}
+		obj := pkg.Types.Scope().Lookup(c.Type)
+		if obj == nil {
+			return undecided(ev, "CONTRACT-MISMATCH no type "+c.Type+" in "+c.Pkg)
+		}
+		named, _ := obj.Type().(*types.Named)
+		st, _ := obj.Type().Underlying().(*types.Struct)
+		if named == nil || st == nil {
+			return undecided(ev, "CONTRACT-MISMATCH "+c.Type+" is not a struct type")
+		}
+		types_ = append(types_, strings.TrimPrefix(c.Pkg, modRoot+"/")+"."+c.Type)
+		confined, shared := map[string]bool{}, map[string]bool{}
+		for _, f := range c.Confined {
+			confined[f] = true
+		}
+		for _, f := range c.Shared {
+			shared[f] = true
+		}
+		// every field must be classified
+		for i := 0; i < st.NumFields(); i++ {
+			f := st.Field(i).Name()
+			nOb++
+			if confined[f] == shared[f] {
+				violations = append(violations, fmt.Sprintf("%s.%s#confine:field %s is not classified as exactly one of confined / shared", c.Pkg, c.Type, f))
+			} else {
+				nDis++
+			}
+		}
+		// functions of the package
+		var funcs []*FuncInfo
+		for _, fi := range prog.funcs {
+			if fi.pkg == pkg && fi.decl.Body != nil {
+				funcs = append(funcs, fi)
+			}
+		}
+		sort.Slice(funcs, func(a, b int) bool { return funcs[a].key < funcs[b].key })
+		callees := func(fi *FuncInfo, before token.Pos) []string {
+			var out []string
+			ast.Inspect(fi.decl.Body, func(n ast.Node) bool {
+				if g, ok := n.(*ast.GoStmt); ok {
+					_ = g
+					return false // the spawned function runs in another goroutine
+				}
+				if call, ok := n.(*ast.CallExpr); ok && (before == token.NoPos || call.Pos() < before) {
+					var o types.Object
+					switch f := ast.Unparen(call.Fun).(type) {
+					case *ast.Ident:
+						o = pkg.TypesInfo.Uses[f]
+					case *ast.SelectorExpr:
+						o = pkg.TypesInfo.Uses[f.Sel]
+					case *ast.IndexExpr:
+						if id, ok := f.X.(*ast.Ident); ok {
+							o = pkg.TypesInfo.Uses[id]
+						}
+					}
+					if fn, ok := o.(*types.Func); ok && fn.Pkg() == pkg.Types {
+						out = append(out, funcKeyOf(fn))
+					}
+				}
+				return true
+			})
+			return out
+		}
+		reach := func(roots []string, firstBefore map[string]token.Pos) map[string]bool {
+			seen := map[string]bool{}
+			var visit func(k string, before token.Pos)
+			visit = func(k string, before token.Pos) {
+				fi := prog.funcs[k]
+				if fi == nil || fi.decl.Body == nil || seen[k] {
+					return
+				}
+				seen[k] = true
+				for _, cal := range callees(fi, before) {
+					visit(cal, token.NoPos)
+				}
+			}
+			for _, r := range roots {
+				visit(r, firstBefore[r])
+			}
+			return seen
+		}
+		var entries, ctors []string
+		for _, e := range c.Entries {
+			entries = append(entries, c.Pkg+"."+e)
+		}
+		goPos := map[string]token.Pos{}
+		for _, e := range c.Ctors {
+			k := c.Pkg + "." + e
+			ctors = append(ctors, k)
+			if fi := prog.funcs[k]; fi != nil && fi.decl.Body != nil {
+				ast.Inspect(fi.decl.Body, func(n ast.Node) bool {
+					if g, ok := n.(*ast.GoStmt); ok && goPos[k] == token.NoPos {
+						goPos[k] = g.Pos()
+					}
+					return true
+				})
+			}
+		}
+		for _, e := range append(append([]string{}, entries...), ctors...) {
+			nOb++
+			if prog.funcs[e] == nil {
+				violations = append(violations, "CONTRACT-MISMATCH no function "+e)
+			} else {
+				nDis++
+			}
+		}
+		inGoroutine := reach(entries, nil)
+		inCtor := reach(ctors, goPos)
+		var others []string
+		for _, fi := range funcs {
+			if !inGoroutine[fi.key] && !inCtor[fi.key] {
+				others = append(others, fi.key)
+			}
+		}
+		// calling a constructor creates a different object: do not follow it
+		stopAt := map[string]token.Pos{}
+		var othersNoCtor []string
+		isCtor := map[string]bool{}
+		for _, k := range ctors {
+			isCtor[k] = true
+		}
+		for _, k := range others {
+			if !isCtor[k] {
+				othersNoCtor = append(othersNoCtor, k)
+			}
+		}
+		_ = stopAt
+		fromOthers := reachExcept(prog, othersNoCtor, isCtor, callees)
+		// field accesses
+		for _, fi := range funcs {
+			info := pkg.TypesInfo
+			writes := map[ast.Node]bool{}
+			markWrite := func(e ast.Expr) {
+				for {
+					switch t := ast.Unparen(e).(type) {
+					case *ast.SelectorExpr:
+						writes[t] = true
+						e = t.X
+						continue
+					case *ast.IndexExpr:
+						e = t.X
+						continue
+					case *ast.StarExpr:
+						e = t.X
+						continue
+					}
+					return
+				}
+			}
+			ast.Inspect(fi.decl.Body, func(n ast.Node) bool {
+				switch s := n.(type) {
+				case *ast.AssignStmt:
+					for _, l := range s.Lhs {
+						markWrite(l)
+					}
+				case *ast.IncDecStmt:
+					markWrite(s.X)
+				case *ast.CallExpr:
+					if id, ok := s.Fun.(*ast.Ident); ok && (id.Name == "delete" || id.Name == "copy" || id.Name == "clear") && len(s.Args) > 0 {
+						if _, isB := info.Uses[id].(*types.Builtin); isB {
+							markWrite(s.Args[0])
+						}
+					}
+				case *ast.UnaryExpr:
+					if s.Op == token.AND {
+						markWrite(s.X) // address taken: treated as a write
+					}
+				}
+				return true
+			})
+			ast.Inspect(fi.decl.Body, func(n ast.Node) bool {
+				sel, ok := n.(*ast.SelectorExpr)
+				if !ok {
+					return true
+				}
+				s := info.Selections[sel]
+				if s == nil || s.Kind() != types.FieldVal {
+					return true
+				}
+				rt := s.Recv()
+				if p, ok := types.Unalias(rt).(*types.Pointer); ok {
+					rt = p.Elem()
+				}
+				rn, _ := types.Unalias(rt).(*types.Named)
+				if rn == nil || rn.Origin() != named.Origin() {
+					return true
+				}
+				f := sel.Sel.Name
+				where := fi.name()
+				ctorPhase := inCtor[fi.key] && (goPos[fi.key] == token.NoPos || sel.Pos() < goPos[fi.key])
+				name := fmt.Sprintf("%s.%s#confine:%s:in:%s", strings.TrimPrefix(c.Pkg, modRoot+"/"), c.Type, f, strings.TrimPrefix(where, strings.TrimPrefix(c.Pkg, modRoot+"/")+"."))
+				nOb++
+				bad := ""
+				switch {
+				case confined[f]:
+					if fromOthers[fi.key] {
+						bad = "confined field " + f + " is accessed in " + where + ", which is reachable from a function outside the goroutine (API method)"
+					} else if !inGoroutine[fi.key] && !ctorPhase {
+						bad = "confined field " + f + " is accessed in " + where + " outside the goroutine and the constructor phase"
+					}
+				case shared[f]:
+					if writes[sel] && !ctorPhase && !(inCtor[fi.key] && !inGoroutine[fi.key] && !fromOthers[fi.key]) {
+						bad = "shared field " + f + " is written in " + where + " after the goroutine may have started"
+					}
+				}
+				if bad == "" {
+					nDis++
+					if len(samples) < 8 {
+						samples = append(samples, map[string]interface{}{"obligation": name, "write": writes[sel]})
+					}
+					return true
+				}
+				if what, ok := known[name]; ok {
+					fmt.Printf("KNOWN-FINDING: property=%s %s (%s)\n", o.prop, what, name)
+					nDis++
+					return true
+				}
+				violations = append(violations, name+": "+bad+" ("+pkg.Fset.Position(sel.Pos()).String()+")")
+				return true
+			})
+		}
+	}
+	ev.Coverage["obligations"] = nOb
+	ev.Coverage["discharged"] = nDis
+	ev.Coverage["checker_cmd"] = "govc check -prop C20 (confinement obligations decided on the typed AST of /repo's working tree)"
+	ev.Coverage["types_checked"] = types_
+	ev.Coverage["samples"] = samples
+	ev.Coverage["trusted_base"] = []string{
+		"govc's call-graph and field-access analysis over go/types",
+		"the Go memory model: channel send happens-before the corresponding receive; sync.WaitGroup, context and breaker are race free",
+		"ownership of delivered slices is property C08 (heap-write hook), not repeated here",
+	}
+	ev.Assumptions = []string{
+		"user code obeys the documented protocol (a producer does not modify a slice after sending it; Release/feedback only for delivered items)",
+		"races inside dependencies and the runtime are out of scope",
+	}
+	ev.Violations = len(violations)
+	if len(violations) > 0 {
+		dir := filepath.Join(o.verif, "replays")
+		_ = os.MkdirAll(dir, 0o755)
+		for i, v := range violations {
+			if strings.HasPrefix(v, "CONTRACT-MISMATCH") {
+				return undecided(ev, violations...)
+			}
+			path := filepath.Join(dir, fmt.Sprintf("C20-%s.json", sane(strings.SplitN(v, ":", 2)[0]+fmt.Sprint(i))))
+			_ = os.WriteFile(path, []byte(fmt.Sprintf("{\n \"property\": \"C20\",\n \"obligation\": %q,\n \"note\": \"confinement obligation failed; no failing input is produced by this analysis\"\n}\n", v)), 0o644)
+			fmt.Printf("VIOLATION property=C20 replay=%s no-failing-input-found\n", path)
+		}
+		return 1, ev
+	}
+	fmt.Printf("OK property=C20 obligations=%d discharged=%d types=%d\n", nOb, nDis, len(types_))
+	return 0, ev
+}
+
+func reachExcept(prog *Program, roots []string, stop map[string]bool, callees func(*FuncInfo, token.Pos) []string) map[string]bool {
+	seen := map[string]bool{}
+	var visit func(k string)
+	visit = func(k string) {
+		fi := prog.funcs[k]
+		if fi == nil || fi.decl.Body == nil || seen[k] || stop[k] {
+			return
+		}
+		seen[k] = true
+		for _, c := range callees(fi, token.NoPos) {
+			visit(c)
+		}
+	}
+	for _, r := range roots {
+		visit(r)
+	}
+	return seen
 }
